@@ -1,7 +1,388 @@
-// Package c16 interprets the C16 op language against the real packages (stub).
+// Package c16 interprets the C16 op language against the real slot chain: recording slots whose behaviour
+// table is given in the op lines are added with the public Add…Slot functions to real base.SlotChain
+// objects, traffic goes through api.Entry(WithSlotChain) / SentinelEntry.Exit, and the *BlockError handed
+// to the caller is kept and re-read after further traffic.
 package c16
 
-import "verifharness/internal/vh"
+import (
+	"errors"
+	"fmt"
+	"reflect"
+	"runtime"
+	"runtime/debug"
+	"strconv"
+	"strings"
+	"unsafe"
 
-// New returns the interpreter for C16.
-func New() vh.Interp { return nil }
+	sentinel "github.com/alibaba/sentinel-golang/api"
+	"github.com/alibaba/sentinel-golang/core/base"
+	"verifharness/internal/vh"
+)
+
+type chainRec struct {
+	sc *base.SlotChain
+}
+
+type entryRec struct {
+	e   *base.SentinelEntry
+	be  *base.BlockError
+	ctx *base.EntryContext
+	tr  *base.TokenResult
+}
+
+type Interp struct {
+	chains  map[string]*chainRec
+	entries map[string]*entryRec
+	log     []string
+	curCtx  *base.EntryContext
+	cids    map[*base.EntryContext]int
+	tids    map[*base.TokenResult]int
+}
+
+func New() vh.Interp {
+	// one P, one thread, no background GC: sync.Pool reuse is deterministic (private slot, then LIFO shared)
+	runtime.GOMAXPROCS(1)
+	runtime.LockOSThread()
+	debug.SetGCPercent(-1)
+	vh.Silence()
+	vh.NewClock(1_900_000_000_000)
+	it := &Interp{}
+	it.Reset()
+	return it
+}
+
+func (it *Interp) Reset() {
+	it.chains = map[string]*chainRec{}
+	it.entries = map[string]*entryRec{}
+	it.log = nil
+	it.curCtx = nil
+	it.cids = map[*base.EntryContext]int{}
+	it.tids = map[*base.TokenResult]int{}
+	// two collections empty every sync.Pool (primary → victim → gone): each case starts with an empty context pool
+	runtime.GC()
+	runtime.GC()
+}
+
+func (it *Interp) call(ctx *base.EntryContext, what string) {
+	it.curCtx = ctx
+	it.log = append(it.log, what)
+}
+
+func (it *Interp) handler(id int, beh string) base.ExitHandler {
+	return func(e *base.SentinelEntry, ctx *base.EntryContext) error {
+		it.call(ctx, fmt.Sprintf("H%d", id))
+		switch beh {
+		case "herr":
+			return errors.New("exit handler error")
+		case "hpanic":
+			panic("exit handler panic")
+		}
+		return nil
+	}
+}
+
+// ---- recording slots -------------------------------------------------------------------------
+
+type pSlot struct {
+	it    *Interp
+	id    int
+	order uint32
+	beh   string
+	hook  string
+}
+
+func (s *pSlot) Order() uint32 { return s.order }
+func (s *pSlot) Prepare(ctx *base.EntryContext) {
+	s.it.call(ctx, fmt.Sprintf("P%d", s.id))
+	if s.hook != "" {
+		ctx.Entry().WhenExit(s.it.handler(s.id, s.hook))
+	}
+	if s.beh == "panic" {
+		panic("prepare slot panic")
+	}
+}
+
+type rule struct{ id int }
+
+func (r *rule) String() string       { return fmt.Sprintf("rule%d", r.id) }
+func (r *rule) ResourceName() string { return "c16" }
+
+type rSlot struct {
+	it    *Interp
+	id    int
+	order uint32
+	beh   string // pass nil wait panic bf bc bo
+	typ   base.BlockType
+	hook  string
+	rule  *rule
+	own   *base.TokenResult
+}
+
+func (s *rSlot) Order() uint32 { return s.order }
+func (s *rSlot) Check(ctx *base.EntryContext) *base.TokenResult {
+	s.it.call(ctx, fmt.Sprintf("R%d", s.id))
+	if s.hook != "" {
+		ctx.Entry().WhenExit(s.it.handler(s.id, s.hook))
+	}
+	msg := strconv.Itoa(s.id)
+	snap := int(s.order)
+	switch s.beh {
+	case "pass":
+		return base.NewTokenResultPass()
+	case "nil":
+		return nil
+	case "wait":
+		return base.NewTokenResultShouldWait(1000)
+	case "panic":
+		panic("rule slot panic")
+	case "bf":
+		return base.NewTokenResultBlockedWithCause(s.typ, msg, s.rule, snap)
+	case "bc":
+		ctx.RuleCheckResult.ResetToBlockedWithCause(s.typ, msg, s.rule, snap)
+		return ctx.RuleCheckResult
+	case "bo":
+		s.own.ResetToBlockedWithCause(s.typ, msg, s.rule, snap)
+		return s.own
+	}
+	panic("bad rule behaviour")
+}
+
+type sSlot struct {
+	it    *Interp
+	id    int
+	order uint32
+	beh   string // ok pp pb pc
+}
+
+func beFields(b *base.BlockError) [4]string {
+	if b == nil {
+		return [4]string{"nil", "", "", ""}
+	}
+	r := "norule"
+	if x, ok := b.TriggeredRule().(*rule); ok {
+		r = strconv.Itoa(x.id)
+	}
+	sn := "nosnap"
+	if x, ok := b.TriggeredValue().(int); ok {
+		sn = strconv.Itoa(x)
+	}
+	return [4]string{strconv.Itoa(int(b.BlockType())), b.BlockMsg(), r, sn}
+}
+
+func (s *sSlot) Order() uint32 { return s.order }
+func (s *sSlot) OnEntryPassed(ctx *base.EntryContext) {
+	s.it.call(ctx, fmt.Sprintf("S%d+", s.id))
+	if s.beh == "pp" {
+		panic("stat slot panic in OnEntryPassed")
+	}
+}
+func (s *sSlot) OnEntryBlocked(ctx *base.EntryContext, b *base.BlockError) {
+	f := beFields(b)
+	if b == nil {
+		s.it.call(ctx, fmt.Sprintf("S%d-nil", s.id))
+	} else {
+		s.it.call(ctx, fmt.Sprintf("S%d-%s", s.id, strings.Join(f[:], ".")))
+	}
+	if s.beh == "pb" {
+		panic("stat slot panic in OnEntryBlocked")
+	}
+}
+func (s *sSlot) OnCompleted(ctx *base.EntryContext) {
+	s.it.call(ctx, fmt.Sprintf("S%dc", s.id))
+	if s.beh == "pc" {
+		panic("stat slot panic in OnCompleted")
+	}
+}
+
+// ---- parsing ---------------------------------------------------------------------------------
+
+func (it *Interp) addSlot(sc *base.SlotChain, tok string) bool {
+	f := strings.Split(tok, ":")
+	if len(f) < 4 || len(f) > 5 {
+		return false
+	}
+	id, err1 := strconv.Atoi(f[1])
+	ord, err2 := strconv.ParseUint(f[2], 10, 32)
+	if err1 != nil || err2 != nil || id < 0 {
+		return false
+	}
+	hook := ""
+	if len(f) == 5 {
+		hook = f[4]
+		if hook != "hok" && hook != "herr" && hook != "hpanic" {
+			return false
+		}
+	}
+	switch f[0] {
+	case "p":
+		if f[3] != "ok" && f[3] != "panic" {
+			return false
+		}
+		sc.AddStatPrepareSlot(&pSlot{it: it, id: id, order: uint32(ord), beh: f[3], hook: hook})
+	case "r":
+		s := &rSlot{it: it, id: id, order: uint32(ord), beh: f[3], hook: hook, rule: &rule{id}}
+		switch f[3] {
+		case "pass", "nil", "wait", "panic":
+		default:
+			if len(f[3]) < 3 || (f[3][:2] != "bf" && f[3][:2] != "bc" && f[3][:2] != "bo") {
+				return false
+			}
+			t, err := strconv.ParseUint(f[3][2:], 10, 8)
+			if err != nil {
+				return false
+			}
+			s.beh, s.typ = f[3][:2], base.BlockType(t)
+			if s.beh == "bo" {
+				s.own = base.NewTokenResultPass()
+			}
+		}
+		sc.AddRuleCheckSlot(s)
+	case "s":
+		if hook != "" || (f[3] != "ok" && f[3] != "pp" && f[3] != "pb" && f[3] != "pc") {
+			return false
+		}
+		sc.AddStatSlot(&sSlot{it: it, id: id, order: uint32(ord), beh: f[3]})
+	default:
+		return false
+	}
+	return true
+}
+
+func validSlots(toks []string) bool {
+	// validate before touching anything, so that a malformed op has no effect (like the model's parser)
+	probe := &Interp{}
+	sc := base.NewSlotChain()
+	for _, t := range toks {
+		if !probe.addSlot(sc, t) {
+			return false
+		}
+	}
+	return true
+}
+
+// field reads the unexported slice field of a SlotChain (the sorted slot list itself).
+func field(sc *base.SlotChain, name string) reflect.Value {
+	f := reflect.ValueOf(sc).Elem().FieldByName(name)
+	return reflect.NewAt(f.Type(), unsafe.Pointer(f.UnsafeAddr())).Elem()
+}
+
+func sortedIDs(sc *base.SlotChain) string {
+	var p, r, s []string
+	for _, x := range field(sc, "statPres").Interface().([]base.StatPrepareSlot) {
+		p = append(p, "P"+strconv.Itoa(x.(*pSlot).id))
+	}
+	for _, x := range field(sc, "ruleChecks").Interface().([]base.RuleCheckSlot) {
+		r = append(r, "R"+strconv.Itoa(x.(*rSlot).id))
+	}
+	for _, x := range field(sc, "stats").Interface().([]base.StatSlot) {
+		s = append(s, "S"+strconv.Itoa(x.(*sSlot).id))
+	}
+	return vh.List(p) + " " + vh.List(r) + " " + vh.List(s)
+}
+
+func named(x interface{ Order() uint32 }) string {
+	return fmt.Sprintf("%s:%d", strings.TrimPrefix(fmt.Sprintf("%T", x), "*"), x.Order())
+}
+
+func globalOrder() string {
+	sc := sentinel.GlobalSlotChain()
+	var p, r, s []string
+	for _, x := range field(sc, "statPres").Interface().([]base.StatPrepareSlot) {
+		p = append(p, named(x))
+	}
+	for _, x := range field(sc, "ruleChecks").Interface().([]base.RuleCheckSlot) {
+		r = append(r, named(x))
+	}
+	for _, x := range field(sc, "stats").Interface().([]base.StatSlot) {
+		s = append(s, named(x))
+	}
+	return vh.List(p) + " " + vh.List(r) + " " + vh.List(s)
+}
+
+// ---- ops -------------------------------------------------------------------------------------
+
+func (it *Interp) Step(t []string, op string) string {
+	switch {
+	case t[0] == "chain" && len(t) >= 2:
+		if _, ok := it.chains[t[1]]; ok || !validSlots(t[2:]) {
+			return "bad-op"
+		}
+		sc := base.NewSlotChain()
+		for _, tok := range t[2:] {
+			it.addSlot(sc, tok)
+		}
+		it.chains[t[1]] = &chainRec{sc: sc}
+		return sortedIDs(sc)
+	case t[0] == "add" && len(t) == 3:
+		c, ok := it.chains[t[1]]
+		if !ok || !validSlots(t[2:]) {
+			return "bad-op"
+		}
+		it.addSlot(c.sc, t[2])
+		return sortedIDs(c.sc)
+	case t[0] == "entry" && len(t) == 3:
+		c, ok := it.chains[t[2]]
+		if _, dup := it.entries[t[1]]; !ok || dup {
+			return "bad-op"
+		}
+		it.log, it.curCtx = nil, nil
+		e, be := sentinel.Entry("c16-"+t[2], sentinel.WithSlotChain(c.sc))
+		rec := &entryRec{e: e, be: be}
+		if be != nil {
+			rec.ctx = it.curCtx // a rule slot ran, so the context has been seen
+			f := beFields(be)
+			it.entries[t[1]] = rec
+			if rec.ctx != nil {
+				rec.tr = rec.ctx.RuleCheckResult
+			}
+			return "block " + strings.Join(f[:], " ")
+		}
+		if e == nil {
+			return "neither-entry-nor-error"
+		}
+		rec.ctx = e.Context()
+		rec.tr = rec.ctx.RuleCheckResult
+		it.entries[t[1]] = rec
+		return "pass"
+	case t[0] == "whenexit" && len(t) == 4:
+		r, ok := it.entries[t[1]]
+		id, err := strconv.Atoi(t[2])
+		if !ok || r.e == nil || err != nil || id < 0 || (t[3] != "hok" && t[3] != "herr" && t[3] != "hpanic") {
+			return "bad-op"
+		}
+		r.e.WhenExit(it.handler(id, t[3]))
+		return ""
+	case t[0] == "exit" && len(t) == 2:
+		r, ok := it.entries[t[1]]
+		if !ok || r.e == nil {
+			return "bad-op"
+		}
+		it.log = nil
+		r.e.Exit()
+		return "ok"
+	case t[0] == "log" && len(t) == 1:
+		return vh.List(it.log)
+	case t[0] == "ident" && len(t) == 2:
+		r, ok := it.entries[t[1]]
+		if !ok {
+			return "bad-op"
+		}
+		if _, ok := it.cids[r.ctx]; !ok {
+			it.cids[r.ctx] = len(it.cids)
+		}
+		if _, ok := it.tids[r.tr]; !ok {
+			it.tids[r.tr] = len(it.tids)
+		}
+		return fmt.Sprintf("ctx %d tr %d", it.cids[r.ctx], it.tids[r.tr])
+	case t[0] == "blockerr" && len(t) == 2:
+		r, ok := it.entries[t[1]]
+		if !ok || r.be == nil {
+			return "bad-op"
+		}
+		f := beFields(r.be)
+		return strings.Join(f[:], " ")
+	case t[0] == "globalorder" && len(t) == 1:
+		return globalOrder()
+	}
+	return "bad-op"
+}
